@@ -59,7 +59,7 @@ pub fn c13_def() -> PropDef {
     PropDef {
         id: "C13",
         level: "exploration",
-        rule: "proptest cfg (4..5 real nodes through the real node.rs wiring, per-link keyed delays 5..45 ms i.e. well below the 1 s timeout, batch parameters, seeds) + tape -> clients submit 1..60 transactions of 10..150 bytes to tape-chosen nodes at tape-chosen instants; variant (half of the cases): one victim never receives the batch broadcasts of one creator (frames on that mempool link are dropped, so the creator reaches its quorum elsewhere and drops the handle) and, in half of those, the victim's batch requests to one peer are dropped too (unresponsive first sync target -> retry with other peers). No crashes; cases in which a Timeout/TC nevertheless appears are outside the property's domain and are skipped (counted). Oracle after a quiescence horizon: every submitted transaction occurs in a batch whose digest is in the payload of a block that is in every node's commit sequence, and re-opening every node's store (Store::new on the same path) returns exactly that batch's bytes; commit sequences are pairwise prefix-consistent; the victim's highest committed round is within 6 rounds of the others' and it sent a BatchRequest and stored the batch it had missed. Non-trivial: transactions went to >= 2 nodes and >= 3 non-empty blocks were committed, or (variant) a batch was fetched by request; distinct by (delays, load pattern) hash.",
+        rule: "proptest cfg (4..5 real nodes through the real node.rs wiring, per-link keyed delays 5..45 ms i.e. well below the 1 s timeout, batch parameters, seeds) + tape -> clients submit 1..60 transactions of 10..150 bytes to tape-chosen nodes at tape-chosen instants; variant (half of the cases): one victim never receives the batch broadcasts of one creator (frames on that mempool link are dropped, so the creator reaches its quorum elsewhere and drops the handle) and, in half of those, the victim's batch requests to one peer are dropped too (unresponsive first sync target -> retry with other peers). No crashes; cases in which a Timeout/TC nevertheless appears are outside the property's domain and are skipped (counted). Oracle after a quiescence horizon (extended by up to 30 virtual seconds while some node's highest committed round is more than 6 below another's: the property sets no deadline for the recovery of a node that lacks a batch, and recovery may have to wait for the consensus synchronizer's 5 s retry tick): every submitted transaction occurs in a batch whose digest is in the payload of a block that is in every node's commit sequence, and re-opening every node's store (Store::new on the same path) returns exactly that batch's bytes; commit sequences are pairwise prefix-consistent; the victim's highest committed round is within 6 rounds of the others' and it sent a BatchRequest and stored the batch it had missed. Non-trivial: transactions went to >= 2 nodes and >= 3 non-empty blocks were committed, or (variant) a batch was fetched by request; distinct by (delays, load pattern) hash.",
         assumptions: &[
             "no faults other than the dropped mempool link of the variant; delays below a quarter of the round timeout",
             "the commit channel is observed through the real Node::commit receiver",
@@ -134,6 +134,29 @@ fn c13_run(case: &Case, _ctx: &Ctx) -> Outcome {
             let _ = conns.tx(200 + node as u32, node, tx).await;
         }
         tokio::time::sleep(ms(horizon_ms)).await;
+        // The property sets no deadline for a node that lacks a batch ("obtains it ... and then resumes
+        // processing"): recovery may have to wait for the consensus synchronizer's 5 s retry tick (for
+        // instance when a burst of commits garbage-collects the batch request that had just been
+        // registered) and for the backward walk over everything produced meanwhile. While some node
+        // is still behind, keep the cluster running - up to 30 more virtual seconds - before judging.
+        let mut extra = 0;
+        while extra < 30 {
+            let tops: Vec<u64> = sim::with_log(|log| {
+                let c = commits_by_node(log);
+                (1..=n as u32).map(|i| c.get(&i).and_then(|v| v.iter().map(|(_, _, b)| b.round).max()).unwrap_or(0)).collect()
+            });
+            let (lo, hi) = (tops.iter().min().copied().unwrap_or(0), tops.iter().max().copied().unwrap_or(0));
+            if lo + 6 >= hi {
+                break;
+            }
+            tokio::time::sleep(ms(1_000)).await;
+            extra += 1;
+        }
+        if extra > 0 {
+            sim::log(Ev::Note(format!("horizon extended by {} s", extra)));
+            // let the last catch-up burst settle
+            tokio::time::sleep(ms(300)).await;
+        }
     });
     let log = sim::take_log();
     let panics = sim::panics();
@@ -150,6 +173,9 @@ fn c13_run(case: &Case, _ctx: &Ctx) -> Outcome {
     if frames.iter().any(|f| matches!(f.4, ConsensusMessage::Timeout(_) | ConsensusMessage::TC(_))) {
         out.class("skipped:view-change-observed");
         return out;
+    }
+    if log.iter().any(|e| matches!(&e.ev, Ev::Note(n) if n.starts_with("horizon extended"))) {
+        out.class("horizon-extended-for-a-lagging-node");
     }
     let commits = commits_by_node(&log);
     let chains: BTreeMap<u32, Vec<Rc<Block>>> = commits.iter().map(|(k, v)| (*k, chain_of(v))).collect();
@@ -179,7 +205,57 @@ fn c13_run(case: &Case, _ctx: &Ctx) -> Outcome {
             }
         }
     }
-    let hist = |extra: Value| json!({"n": n, "variant": variant, "victim": victim, "creator": creator, "unresponsive": unresponsive, "deaf": deaf, "detail": extra, "commits": render_commits(&commits)});
+    let hist = |extra: Value| {
+        // what the victim's mempool sent and was sent (batch requests and the batches answering them)
+        let vid = victim as u32 + 1;
+        let traffic: Vec<Value> = if variant {
+            log.iter()
+                .filter_map(|e| match &e.ev {
+                    Ev::Sent { info, bytes, dropped } if info.forward && port_kind(info.dst_port) == PortKind::Mempool && (info.writer_node == vid || node_of_port(info.dst_port) == vid) => {
+                        let what = match bincode::deserialize::<MempoolMessage>(bytes) {
+                            Ok(MempoolMessage::Batch(_)) => format!("Batch {}", crate::rig::short(&sha512_32(bytes))),
+                            Ok(MempoolMessage::BatchRequest(ds, _)) => format!("BatchRequest {:?}", ds.iter().map(crate::rig::short).collect::<Vec<_>>()),
+                            Err(_) => "?".into(),
+                        };
+                        if info.writer_node == vid && what.starts_with("Batch ") {
+                            return None;
+                        }
+                        Some(json!({"t_us": e.t_us, "from": info.writer_node, "to": node_of_port(info.dst_port), "msg": what, "dropped": dropped}))
+                    }
+                    _ => None,
+                })
+                .filter(|v| v["msg"].as_str().map_or(false, |m| m.starts_with("BatchRequest")) || v["from"] != json!(vid))
+                .take(std::env::var("VERIF_DUMP").ok().and_then(|v| v.parse().ok()).unwrap_or(60))
+                .collect()
+        } else {
+            Vec::new()
+        };
+        if let Ok(w) = std::env::var("VERIF_DEBUG_WINDOW") {
+            // "from_us,to_us": every event of the victim in the window, for debugging a replay
+            let mut it = w.split(',').map(|x| x.parse::<u64>().unwrap_or(0));
+            let (a, b) = (it.next().unwrap_or(0), it.next().unwrap_or(u64::MAX));
+            for e in log.iter().filter(|e| e.t_us >= a && e.t_us <= b) {
+                match &e.ev {
+                    Ev::Sent { info, bytes, dropped } if info.writer_node == vid || node_of_port(info.dst_port) == vid || info.src_node == vid => {
+                        let what = match port_kind(info.dst_port) {
+                            PortKind::Consensus if info.forward => bincode::deserialize::<ConsensusMessage>(bytes).map(|m| crate::solo::render_msg(&m)).unwrap_or_else(|_| "?".into()),
+                            PortKind::Mempool if info.forward => match bincode::deserialize::<MempoolMessage>(bytes) {
+                                Ok(MempoolMessage::Batch(_)) => format!("Batch {}", crate::rig::short(&sha512_32(bytes))),
+                                Ok(MempoolMessage::BatchRequest(ds, _)) => format!("BatchRequest {:?}", ds.iter().map(crate::rig::short).collect::<Vec<_>>()),
+                                Err(_) => "?".into(),
+                            },
+                            _ => format!("{} bytes (ack or tx)", bytes.len()),
+                        };
+                        eprintln!("DBG {} writer={} port={} fwd={} dropped={} {}", e.t_us, info.writer_node, info.dst_port, info.forward, dropped, what);
+                    }
+                    Ev::StoreWrite { node, key, len } if *node == vid => eprintln!("DBG {} store-write {} ({} bytes)", e.t_us, crate::rig::short(&Digest(std::convert::TryInto::try_into(&key[..]).unwrap_or([0u8; 32]))), len),
+                    Ev::Commit { node, block } if *node == vid => eprintln!("DBG {} commit round {}", e.t_us, block.round),
+                    _ => {}
+                }
+            }
+        }
+        json!({"n": n, "variant": variant, "victim": victim, "creator": creator, "unresponsive": unresponsive, "deaf": deaf, "detail": extra, "commits": render_commits(&commits), "victim_mempool_traffic": traffic})
+    };
     // pairwise consistency
     let ids: Vec<u32> = chains.keys().copied().collect();
     for i in 0..ids.len() {
